@@ -93,7 +93,9 @@ Inductive stmt :=
 | SNew (x : string) (t : ity) (n : expr)
 | SDelete (p : expr)
 | SPrim (ret : option string) (name : string) (args : list expr)
-| SSetPtr (p : expr) (e : expr).             (* pointer-valued member variable at address p := e *)
+| SSetPtr (p : expr) (e : expr)              (* pointer-valued member variable at address p := e *)
+| SNewObj (x : string) (cls : string) (objs : list (string * ity * Z)) (ctor : option string) (args : list expr).
+                                             (* x = new cls(args): a fresh object prefix with the members objs, its dynamic class, then the constructor *)
 
 Record func := { f_params : list string; f_body : stmt }.
 Definition program := list (string * func).
@@ -338,6 +340,33 @@ Definition nat_string (n : nat) : string :=
                if Nat.eqb (Nat.div n 10) 0 then d else go k' (Nat.div n 10) d
      end) (S n) n EmptyString.
 
+(* bytes of a list of cells of width w (little-endian) and back *)
+Definition cells_bytes (w : nat) (cells : list Z) : list Z := flat_map (fun c => le_bytes w (c mod 2 ^ (8 * Z.of_nat w))) cells.
+Fixpoint bytes_cells (w : nat) (k : nat) (bs : list Z) : list Z :=
+  match k with
+  | O => []
+  | S k' => le_val (firstn w bs) :: bytes_cells w k' (skipn w bs)
+  end.
+(* members of a new object; the element count of a member whose dimension is a compile-time constant of the source
+   (BUF_SZ, HBUF_SZ: overridden in the verification builds) is taken from the one-cell global "sizeof:<class>.<member>"
+   when the harness supplies one *)
+Fixpoint alloc_objs (cls pfx : string) (l : list (string * ity * Z)) (m : memory) : memory :=
+  match l with
+  | [] => m
+  | (name, t, n) :: r =>
+      let n' := match mget m ("sizeof:" ++ cls ++ "." ++ name)%string with
+                | Some o => nth 0 (o_cells o) n
+                | None => n
+                end in
+      alloc_objs cls pfx r (mset m (pfx ++ name) {| o_ty := t; o_cells := repeat 0 (Z.to_nat n') |})
+  end.
+Definition class_key (pfx : string) : string := ("class:" ++ pfx)%string.
+Fixpoint strlen_from (fuel : nat) (l : list Z) : option nat :=
+  match l with
+  | [] => None
+  | x :: r => if x =? 0 then Some O else match fuel with O => None | S f => option_map S (strlen_from f r) end
+  end.
+
 (* primitives: the C library calls the translated routines make *)
 Definition do_prim (s : state) (name : string) (vs : list value) : res (option value * state) :=
   if String.eqb name "fread" then
@@ -347,7 +376,24 @@ Definition do_prim (s : state) (name : string) (vs : list value) : res (option v
         do fname <- stream_of fp;
         match lget (files s) fname, mget (mem s) od with
         | Some f, Some bd =>
-            if negb (ity_bytes (o_ty bd) =? 1) then UB "fread into a wide view" else
+            if negb (ity_bytes (o_ty bd) =? 1) then
+              (* whole cells of a wider object (fread(&mn, 1, 8, fp) on a u64): all n bytes must be available *)
+              let w := ity_bytes (o_ty bd) in
+              if (n <? 0) || (offd <? 0) || negb (n mod w =? 0) || negb (offd mod w =? 0) then UB "fread into a wide view: alignment" else
+              if Z.of_nat (List.length (o_cells bd)) <? offd / w + n / w then UB "fread out of bounds" else
+              let avail := Z.of_nat (List.length (cf_data f)) - Z.of_nat (cf_pos f) in
+              let got := firstn (Z.to_nat (Z.min n avail)) (skipn (cf_pos f) (cf_data f)) in
+              let k := List.length got in
+              let f' := {| cf_data := cf_data f; cf_pos := cf_pos f + k; cf_eof := cf_eof f || (Z.of_nat k <? n) |} in
+              (* the bytes that arrived overlay the object representation of the cells (little-endian); the rest keeps its value *)
+              let wn := Z.to_nat w in
+              let oldcells := firstn (Z.to_nat (n / w)) (skipn (Z.to_nat (offd / w)) (o_cells bd)) in
+              let oldbytes := cells_bytes wn oldcells in
+              let newbytes := got ++ skipn k oldbytes in
+              let cells := bytes_cells wn (Z.to_nat (n / w)) newbytes in
+              let s1 := with_mem s (mset (mem s) od {| o_ty := o_ty bd; o_cells := upd_range (Z.to_nat (offd / w)) cells (o_cells bd) |}) in
+              Ok (Some (VInt (Z.of_nat k)), with_files s1 (lset (files s) fname f'))
+            else
             if (n <? 0) || (offd <? 0) then UB "fread size" else
             let avail := Z.of_nat (List.length (cf_data f)) - Z.of_nat (cf_pos f) in
             let got := firstn (Z.to_nat (Z.min n avail)) (skipn (cf_pos f) (cf_data f)) in
@@ -403,11 +449,17 @@ Definition do_prim (s : state) (name : string) (vs : list value) : res (option v
         do fname <- stream_of fp;
         match lget (files s) fname, mget (mem s) os with
         | Some f, Some bs =>
-            if negb (ity_bytes (o_ty bs) =? 1) then UB "fwrite from a wide view" else
-            if (n <? 0) || (offs <? 0) then UB "fwrite size" else
-            if Z.of_nat (List.length (o_cells bs)) <? offs + n then UB "fwrite out of bounds" else
-            let src := firstn (Z.to_nat n) (skipn (Z.to_nat offs) (o_cells bs)) in
-            Ok (Some (VInt n), with_files s (lset (files s) fname {| cf_data := cf_data f ++ src; cf_pos := cf_pos f + List.length src; cf_eof := cf_eof f |}))
+            let w := ity_bytes (o_ty bs) in
+            if (n <? 0) || (offs <? 0) || negb (n mod w =? 0) || negb (offs mod w =? 0) then UB "fwrite size" else
+            if Z.of_nat (List.length (o_cells bs)) <? offs / w + n / w then UB "fwrite out of bounds" else
+            let cells := firstn (Z.to_nat (n / w)) (skipn (Z.to_nat (offs / w)) (o_cells bs)) in
+            let src := if w =? 1 then cells else cells_bytes (Z.to_nat w) cells in
+            let d := cf_data f in
+            (* at the end of the stream: append; elsewhere (after fseek): overwrite in place, zero-filling a gap *)
+            let d' := if Nat.eqb (cf_pos f) (List.length d) then d ++ src
+                      else let d0 := d ++ repeat 0 (cf_pos f - List.length d) in
+                           firstn (cf_pos f) d0 ++ src ++ skipn (cf_pos f + List.length src) d0 in
+            Ok (Some (VInt n), with_files s (lset (files s) fname {| cf_data := d'; cf_pos := cf_pos f + List.length src; cf_eof := cf_eof f |}))
         | _, _ => UB "fwrite: no such stream / object"
         end
     | _ => UB "fwrite: arguments"
@@ -416,6 +468,30 @@ Definition do_prim (s : state) (name : string) (vs : list value) : res (option v
     match vs with
     | [VInt c] => Ok (Some (VInt (if ((48 <=? c) && (c <=? 57)) || ((65 <=? c) && (c <=? 90)) || ((97 <=? c) && (c <=? 122)) then 1 else 0)), s)
     | _ => UB "isalnum: arguments"
+    end
+  else if String.eqb name "fseek" then
+    (* fseek(fp, off, SEEK_SET) *)
+    match vs with
+    | [fp; VInt off; VInt 0] => do fname <- stream_of fp;
+        match lget (files s) fname with
+        | Some f => if (off <? 0) || (2 ^ 40 <? off) then UB "fseek offset" else
+                    Ok (Some (VInt 0), with_files s (lset (files s) fname {| cf_data := cf_data f; cf_pos := Z.to_nat off; cf_eof := false |}))
+        | None => UB "fseek: no such stream"
+        end
+    | _ => UB "fseek: arguments"
+    end
+  else if String.eqb name "strlen" then
+    match vs with
+    | [VPtr o off] =>
+        match mget (mem s) o with
+        | Some ob => if negb (ity_bytes (o_ty ob) =? 1) || (off <? 0) || (Z.of_nat (List.length (o_cells ob)) <? off) then UB "strlen: object" else
+                     match strlen_from (List.length (o_cells ob)) (skipn (Z.to_nat off) (o_cells ob)) with
+                     | Some k => Ok (Some (VInt (Z.of_nat k)), s)
+                     | None => UB "strlen: no terminating NUL inside the object"
+                     end
+        | None => UB "strlen: no such object"
+        end
+    | _ => UB "strlen: arguments"
     end
   else UB ("unknown primitive " ++ name)%string.
 
@@ -493,7 +569,12 @@ Fixpoint exec (fuel : nat) (st : stmt) (s : state) {struct fuel} : res (outcome 
           do vs <- eval_list s args; do pfx <- this_prefix s this;
           match lget vtab pfx with
           | Some cls => call_fn ret (cls ++ "::" ++ m)%string pfx vs
-          | None => UB ("no dynamic class for " ++ pfx)%string
+          | None =>
+              (* objects created by SNewObj carry their class in the state *)
+              match lget (ptrs s) (class_key pfx) with
+              | Some (VPtr cls _) => call_fn ret (cls ++ "::" ++ m)%string pfx vs
+              | _ => UB ("no dynamic class for " ++ pfx)%string
+              end
           end
       | SMemcpy d sr n => do dv <- eval s d; do sv <- eval s sr; do nv <- eval s n; do k <- as_int nv;
                           do s' <- do_memcpy s dv sv k; Ok (Normal, s')
@@ -512,6 +593,23 @@ Fixpoint exec (fuel : nat) (st : stmt) (s : state) {struct fuel} : res (outcome 
           do vs <- eval_list s args; do r <- do_prim s name vs;
           let '(v, s1) := r in
           do s2 <- set_ret s1 ret v; Ok (Normal, s2)
+      | SNewObj x cls objs ctor args =>
+          do vs <- eval_list s args;
+          let name := ("#" ++ nat_string (fresh s) ++ ".")%string in
+          let s0 := {| mem := alloc_objs cls name objs (mem s); loc := lset (loc s) x (VPtr name 0); pre := pre s; files := files s;
+                       ptrs := lset (ptrs s) (class_key name) (VPtr cls 0); fresh := S (fresh s) |} in
+          match ctor with
+          | None => Ok (Normal, s0)
+          | Some fname =>
+              match lget prog fname with
+              | None => UB ("no function " ++ fname)%string
+              | Some f =>
+                  do l <- bind_params (f_params f) vs;
+                  do r <- exec fuel' (f_body f) {| mem := mem s0; loc := l; pre := name; files := files s0; ptrs := ptrs s0; fresh := fresh s0 |};
+                  let '(_, s1) := r in
+                  Ok (Normal, {| mem := mem s1; loc := loc s0; pre := pre s0; files := files s1; ptrs := ptrs s1; fresh := fresh s1 |})
+              end
+          end
       | SSetPtr p e =>
           do pv <- eval s p; do ev <- eval s e;
           match pv with
